@@ -82,6 +82,33 @@ Section Bind.
   Definition lib_getcallargs_py (s : sig) (c : call) : lres (amap bval) :=
     if inl "function" (map fst (snd c)) then LErr "TypeError" else lib_getcallargs s c.
 
+  (* ---- keyword-only parameters (declared after *args or a bare star), each with its default if it has one.
+     inspect.getcallargs: they are bound by keyword only, from the call or their default *)
+  Definition ko_defaults (ko : list (string * option V)) : list (string * V) :=
+    flat_map (fun p => match snd p with Some v => [(fst p, v)] | None => [] end) ko.
+  Fixpoint bind_ko (ko : list (string * option V)) (kwargs : list (string * V)) : option (list (string * V)) :=
+    match ko with
+    | [] => Some []
+    | (k, d) :: ko' =>
+        match (match aget k kwargs with Some v => Some v | None => d end) with
+        | Some v => match bind_ko ko' kwargs with Some l => Some ((k, v) :: l) | None => None end
+        | None => None
+        end
+    end.
+  Definition bindk (s : sig) (ko : list (string * option V)) (c : call) : option (amap bval) :=
+    let names := map fst ko in
+    match bind s (fst c, filter (fun kv => negb (inl (fst kv) names)) (snd c)), bind_ko ko (snd c) with
+    | Some r, Some l => Some (r ++ bvs l)
+    | _, _ => None
+    end.
+  (* pyg_base.getcallargs knows keyword-only parameters only through their defaults (argspec_defaults); a keyword naming
+     one is treated like any keyword that is not a positional parameter (top level without **kw, inside the **kw dict with it) *)
+  Definition lib_getcallargs_k (s : sig) (ko : list (string * option V)) (c : call) : lres (amap bval) :=
+    match lib_getcallargs_py s c with
+    | LOk r => LOk (aupdate (bvs (ko_defaults ko)) r)
+    | LErr e => LErr e
+    end.
+
   (* ---- call_with_callargs: the (args, kwargs) it finally passes to the function *)
   Definition bv_val (b : bval) : option V := match b with BV v => Some v | _ => None end.
   Definition call_with_callargs (s : sig) (ca : amap bval) : call :=
@@ -206,11 +233,18 @@ Section Cache.
               {| store := store st ++ [(key c, r)]; trace := trace st ++ [c]; rets := rets st ++ [r] |}
     end.
   Definition crun (cs : list C) : cstate := fold_left cstep cs {| store := []; trace := []; rets := [] |}.
+  (* a call whose key cannot be hashed is not cached at all: the lookup raises, the except arm evaluates f, nothing is stored *)
+  Variable hashable : C -> bool.
+  Definition cstepu (st : cstate) (c : C) : cstate :=
+    if hashable c then cstep st c
+    else let r := f (List.length (trace st)) c in {| store := store st; trace := trace st ++ [c]; rets := rets st ++ [r] |}.
+  Definition crunu (cs : list C) : cstate := fold_left cstepu cs {| store := []; trace := []; rets := [] |}.
 End Cache.
 
 (* ------------------------------------------------------------------ concrete argument values and the cache key *)
 Inductive av := AInt (z : Z) | AFloat (z : Z) | ABool (b : bool) | AStr (s : string) | ANone
-              | ATup (l : list av) | AList (l : list av) | ADict (d : list (string * av)).
+              | ATup (l : list av) | AList (l : list av) | ADict (d : list (string * av))
+              | AUnh (id : Z).      (* the id-th of a fixed list of arguments that stay unhashable after _prehash: numpy arrays, Series, sets *)
 (* the repaired _prehash keeps the kind of container; code k1 = code k2 iff the two keys are equal as Python
    dict keys (1 == 1.0 == True); dict items sorted by key *)
 Fixpoint sinsert {X} (p : string * X) (l : list (string * X)) : list (string * X) :=
@@ -235,7 +269,16 @@ Fixpoint pcode (tagged : bool) (a : av) : list Z :=
                       match d with [] => [] | (k, v) :: d' => (k, pcode tagged v) :: go d' end) d in
       ((if tagged then 5 else 3) :: Z.of_nat (List.length d)
          :: flat_map (fun kc => (if tagged then [] else [3; 2]%Z) ++ 1%Z :: str_code (fst kc) ++ snd kc) (ssort items))%Z
+  | AUnh id => [6; id]%Z
   end.
+Fixpoint unhashable (a : av) : bool :=
+  match a with
+  | AUnh _ => true
+  | ATup l | AList l => existsb unhashable l
+  | ADict d => (fix go (d : list (string * av)) : bool := match d with [] => false | (_, v) :: d' => unhashable v || go d' end) d
+  | _ => false
+  end.
+Definition call_unhashable (c : call av) : bool := existsb unhashable (fst c) || existsb (fun kv => unhashable (snd kv)) (snd c).
 (* key of a call: (prehash of args, sorted prehash of kwargs) *)
 Definition call_key (tagged : bool) (c : call av) : list Z :=
   (Z.of_nat (List.length (fst c)) :: flat_map (pcode tagged) (fst c)) ++
